@@ -136,6 +136,9 @@ func (fv *FuncVerifier) evalCall(st *State, env *Env, call *ast.CallExpr) []Term
 		if hasRecv && types.IsInterface(recvType) {
 			fv.oblige(st, env, "S", "nilcall", Not(App(SBool, "=", recv, Null)), call.Lparen, "method call on non-nil interface value")
 		}
+		if inPlaceSliceMutators[full] && !env.spec && len(call.Args) > 0 {
+			fv.aliasMutateGuard(st, env, call, full, args)
+		}
 		if h, ok := externs[full]; ok {
 			fv.externUsed[full] = true
 			return h(fv, st, env, &CallCtx{call: call, fn: fn, sig: sig, recv: recv, hasRecv: hasRecv, recvType: recvType, args: args})
@@ -1989,4 +1992,33 @@ func (fv *FuncVerifier) callUnknown(st *State, env *Env, call *ast.CallExpr, fn 
 		}
 	}
 	return fv.freshResults(st, sig)
+}
+
+// inPlaceSliceMutators: standard-library functions that rearrange or overwrite the elements of their slice argument
+// in its backing array.
+var inPlaceSliceMutators = map[string]bool{
+	"slices.Insert": true, "slices.Delete": true, "slices.DeleteFunc": true, "slices.Compact": true, "slices.CompactFunc": true,
+	"slices.Reverse": true, "slices.Sort": true, "slices.SortFunc": true, "slices.SortStableFunc": true, "slices.Replace": true,
+	"sort.Slice": true, "sort.SliceStable": true, "sort.Strings": true, "sort.Ints": true,
+}
+
+// aliasMutateGuard: slices are VALUES in this model, so an in-place rearrangement of a backing array that somebody
+// else still holds would go unnoticed. When the slice handed to such a function is (a reslice of) one this function
+// does not own - a variable remembered by trackReslice - the call is allowed only where it cannot touch an element
+// another holder sees: slices.Insert at the very end of a slice that reaches the end of its base (append semantics).
+func (fv *FuncVerifier) aliasMutateGuard(st *State, env *Env, call *ast.CallExpr, full string, args []Term) {
+	a0, ok := ast.Unparen(call.Args[0]).(*ast.Ident)
+	if !ok || st.resliced == nil {
+		return
+	}
+	rs, marked := st.resliced[env.info.ObjectOf(a0)]
+	if !marked {
+		return
+	}
+	goal := False
+	if full == "slices.Insert" && len(args) >= 2 && fv.w.IsSeq(args[0].Sort) {
+		goal = And(Ge(args[1], fv.w.SeqLen(args[0])), Ge(rs[1], fv.w.SeqLen(rs[0])))
+	}
+	fv.oblige(st, env, "S", "alias-mutate", goal, call.Lparen,
+		full+" rearranges, in its backing array, a slice this function does not own (it aliases a slice read from the heap or a parameter): other holders of that array would see elements shifted or overwritten")
 }
